@@ -4,6 +4,8 @@ import (
 	"fmt"
 	"sort"
 	"strings"
+	"sync"
+	"sync/atomic"
 
 	restful "github.com/emicklei/go-restful/v3"
 
@@ -141,6 +143,9 @@ func c17(ctx *core.Ctx) {
 		} else if m == 16 || m == 17 {
 			// services with up to 130 routes on a handful of colliding paths get a share of their own (many candidates per request)
 			ctx.SetAdd("scaled_table_shapes", rt.Scale(&go17, 4))
+		} else if m == 18 || m == 19 {
+			// and so do templates of 10-18 / 10-40 / 10-70 segments (plain and with skewed literal lengths)
+			ctx.SetAdd("scaled_table_shapes", rt.Scale(&go17, 5*(ti/40)))
 		}
 		t := rt.GenTable(r, go17)
 		ctx.Case(ti, "router="+router+" table="+core.JSON(t))
@@ -219,6 +224,45 @@ func c17(ctx *core.Ctx) {
 				}
 			}
 			c17Probe(ctx, ti, t, router, twin, filtered, urls, universe, rr, pass)
+		}
+		if ti%4 == 1 || ti%4 == 2 {
+			// the same OPTIONS requests from 8 goroutines at once: every client gets the answer for ITS url
+			want := make([]string, len(urls))
+			optSig := func(u string) string {
+				req := rt.Req{Method: "OPTIONS", Path: u}
+				o := rt.Run(filtered, rt.Dispatch, &req)
+				return fmt.Sprintf("%d allow=%s acam=%s", o.Status, setOf(rt.ParseAllow(o.Rec.Hdr().Get("Allow"))), setOf(rt.ParseAllow(o.Rec.Hdr().Get("Access-Control-Allow-Methods"))))
+			}
+			for i, u := range urls {
+				want[i] = optSig(u)
+			}
+			var wg sync.WaitGroup
+			var bad int32
+			var first atomic.Value
+			start := make(chan struct{})
+			for g := 0; g < 8; g++ {
+				wg.Add(1)
+				go func(g int) {
+					defer wg.Done()
+					<-start
+					for rep := 0; rep < 3; rep++ {
+						for k := range urls {
+							i := (k + g*3) % len(urls)
+							if got := optSig(urls[i]); got != want[i] {
+								atomic.AddInt32(&bad, 1)
+								first.Store(fmt.Sprintf("OPTIONS %q -> %s while other OPTIONS requests are served, %s alone", urls[i], got, want[i]))
+							}
+						}
+					}
+				}(g)
+			}
+			close(start)
+			wg.Wait()
+			ctx.Eval(24 * len(urls))
+			ctx.Count("concurrent_options_requests", 24*len(urls))
+			if n := atomic.LoadInt32(&bad); n > 0 {
+				ctx.Violation(ti, "c17:options-allow-concurrent:"+router, fmt.Sprintf("%d answer(s) differ; first: %v", n, first.Load()), caseDoc{Router: router, Entry: rt.Dispatch, Table: t})
+			}
 		}
 	}
 }
@@ -343,6 +387,9 @@ func c18(ctx *core.Ctx) {
 		} else if m == 16 || m == 17 {
 			// services with up to 130 routes on a handful of colliding paths get a share of their own (many candidates per request)
 			ctx.SetAdd("scaled_table_shapes", rt.Scale(&o, 4))
+		} else if m == 18 || m == 19 {
+			// and so do templates of 10-18 / 10-40 / 10-70 segments (plain and with skewed literal lengths)
+			ctx.SetAdd("scaled_table_shapes", rt.Scale(&o, 5*(ti/40)))
 		}
 		t := rt.GenTable(r, o)
 		ctx.Case(ti, "table="+core.JSON(t))
